@@ -750,7 +750,9 @@ theorem ok_storeTriggered (s : Tower) (seen : List TxId) (node : Node) (k : Uuid
   cases hdec : a.blob.decrypt d with
   | none =>
     simp only
-    exact ⟨hj, fun x y h => Or.inl h, fun _ h => by cases h⟩
+    have sh := shrink_deleteAppointments s [k] false
+    exact ⟨sh.just hj, fun x y h => Or.inl (by obtain ⟨a', h1, h2⟩ := h; exact ⟨a', sh.appts _ _ h1, h2⟩),
+      fun _ h => by cases h⟩
   | some p =>
     simp only
     have j1 := just_storeAppointment s seen k a hj hk
